@@ -19,7 +19,10 @@
 //!   `P[..]`            named cells bound to the instance column (public-input exposure);
 //!   `D[name:bits/size,..]` native decompositions of named cells (bit / chunk conversions).
 //!   Cell names: `a<r>.<i>` limb i of assign group r, `n<r>.<i>` output limb i of norm region r,
-//!   `K<v>` a fixed cell holding v, `o` any other (native-computed) cell, `!` no copy constraint.
+//!   `K<v>` a fixed cell holding v, `L(c1*s1+c2*s2;k)` the result cell of a one-row native
+//!   "Linear combination" region resolved to its DEFINING ROW (signed coefficient and depth-0 name
+//!   of the cell copied into every term slot, sorted; the constant), `o` any other
+//!   (native-computed) cell, `!` no copy constraint.
 use std::cell::{Cell as StdCell, RefCell};
 use std::collections::HashMap;
 
@@ -197,7 +200,8 @@ pub fn field_trace<F: CircuitField>(
         }
     }
 
-    let name_of = |a: &Abs, names: &HashMap<Abs, String>| -> String {
+    // name at depth 0: creation-site names and fixed cells; anything else `o`
+    let base_name = |a: &Abs, names: &HashMap<Abs, String>| -> String {
         if let Some(s) = names.get(a) {
             return s.clone();
         }
@@ -216,6 +220,77 @@ pub fn field_trace<F: CircuitField>(
         edges.entry(c.left).or_default().push(c.right);
         edges.entry(c.right).or_default().push(c.left);
     }
+
+    // ---- cells computed by a single-row native "Linear combination" region are named by their
+    // defining row: `L(c1*src1+c2*src2;k)` — coefficient of every term (the fixed cells of the
+    // row, signed), the depth-0 name of the cell copied into every term slot, the constant.
+    // (`assign_linear_combination_aux`: result in the first advice slot with coefficient -1, the
+    // terms in the following slots; `custom` assigns the coefficients in slot order.)
+    let mut lnames: HashMap<Abs, String> = HashMap::new();
+    {
+        let half = F::modulus() >> 1;
+        let signed = |v: &num_bigint::BigUint| -> String {
+            if *v > half {
+                format!("-{}", F::modulus() - v)
+            } else {
+                v.to_string()
+            }
+        };
+        let mut by_region: HashMap<usize, Vec<usize>> = HashMap::new();
+        for (ci, c) in rec.cells.iter().enumerate() {
+            by_region.entry(c.region).or_default().push(ci);
+        }
+        for (ri, reg) in rec.regions.iter().enumerate() {
+            if reg.name != "Linear combination" {
+                continue;
+            }
+            let Some(cells) = by_region.get(&ri) else { continue };
+            let row = rec.cells[cells[0]].row;
+            if cells.iter().any(|ci| rec.cells[*ci].row != row) {
+                continue; // multi-row combination (more than 4 terms): left unnamed
+            }
+            let coeffs: Vec<&num_bigint::BigUint> =
+                reg.fixed_seq.iter().filter(|f| f.0 == "arith coeff" && f.1 == row).map(|f| &f.2).collect();
+            let zero = num_bigint::BigUint::from(0u8);
+            let get = |n: &str| reg.fixed_seq.iter().find(|f| f.0 == n && f.1 == row).map(|f| f.2.clone());
+            let (Some(qn), Some(m1), Some(m2), Some(k)) =
+                (get("arith q_next"), get("arith mul_ab"), get("arith mul_ac"), get("arith const"))
+            else {
+                continue;
+            };
+            if coeffs.len() < cells.len() || qn != zero || m1 != zero || m2 != zero {
+                continue;
+            }
+            if signed(coeffs[0]) != "-1" {
+                continue;
+            }
+            let mut terms: Vec<String> = cells[1..]
+                .iter()
+                .enumerate()
+                .map(|(i, ci)| {
+                    let c = &rec.cells[*ci];
+                    let a: Abs = (('a', c.col), c.row);
+                    let src = match edges.get(&a) {
+                        None => "!".to_string(),
+                        Some(v) => v.iter().map(|b| base_name(b, &names)).collect::<Vec<_>>().join("&"),
+                    };
+                    format!("{}*{}", signed(coeffs[i + 1]), src)
+                })
+                .collect();
+            // the order of the terms of a linear combination is immaterial: sorted
+            terms.sort();
+            let c0 = &rec.cells[cells[0]];
+            lnames.insert((('a', c0.col), c0.row), format!("L({};{})", terms.join("+"), signed(&k)));
+        }
+    }
+    let name_of = |a: &Abs, names: &HashMap<Abs, String>| -> String {
+        if let Some(s) = lnames.get(a) {
+            if !names.contains_key(a) {
+                return s.clone();
+            }
+        }
+        base_name(a, names)
+    };
     // range-check events by cell
     let mut rc: HashMap<Abs, Vec<usize>> = HashMap::new();
     for e in events.iter().filter(|e| e.kind == 'C') {
@@ -270,7 +345,7 @@ pub fn field_trace<F: CircuitField>(
         }
         let a = name_of(&l, &names);
         let b = name_of(&rr, &names);
-        if a == "o" || b == "o" {
+        if a == "o" || b == "o" || a.starts_with("L(") || b.starts_with("L(") {
             continue;
         }
         let (a, b) = if a <= b { (a, b) } else { (b, a) };
